@@ -166,7 +166,7 @@ Definition kcovar (blk : list Qc) (order : option nat) : result (list Qc * Qc) :
   | Err e => Err e
   | Ok phi =>
       match length phi with
-      | O | 1 => Err IndexError                      (* phi[1][1] in beta = [inner(B[0], B[0])] *)
+      | O | S O => Err IndexError                      (* phi[1][1] in beta = [inner(B[0], B[0])] *)
       | S (S rem) =>                                 (* order = len(phi) - 1 = rem + 1 *)
           let K := phiK phi in
           kcovar_loop K rem 1 [1] [unit 1] [inner K (unit 1) (unit 1)]
